@@ -292,20 +292,32 @@ func mergeSnapshots(next, existing metadata.ClusterMetadata) metadata.ClusterMet
 	if len(existing.Topics) == 0 {
 		return next
 	}
-	seen := make(map[string]struct{}, len(next.Topics))
-	for _, topic := range next.Topics {
+	seen := make(map[string]int, len(next.Topics))
+	for i, topic := range next.Topics {
 		name := *topic.Topic
 		if name == "" {
 			continue
 		}
-		seen[name] = struct{}{}
+		if _, ok := seen[name]; !ok {
+			seen[name] = i
+		}
 	}
+	copied := false
 	for _, topic := range existing.Topics {
 		name := *topic.Topic
 		if name == "" || topic.ErrorCode != 0 {
 			continue
 		}
-		if _, ok := seen[name]; ok {
+		if idx, ok := seen[name]; ok {
+			// Brokers grow topics through CreatePartitions and persist the result in
+			// the snapshot; never publish fewer partitions than the snapshot already has.
+			if len(topic.Partitions) > len(next.Topics[idx].Partitions) {
+				if !copied {
+					next.Topics = append([]protocol.MetadataTopic(nil), next.Topics...)
+					copied = true
+				}
+				next.Topics[idx].Partitions = topic.Partitions
+			}
 			continue
 		}
 		next.Topics = append(next.Topics, topic)
